@@ -11,8 +11,8 @@ Generators (all seeded from the check's PRNG, appended after the existing stream
   blank-tokens     for EVERY character x of the class, every token sequence of length <= 5 over {Ab, and, space, x} that contains
                    x (thorough: over {Ab, and, aNd, space, newline, x}); then a seeded sample of sequences of length 4-7 over the
                    full C12 alphabet + the whole class
-  blank-templates  for EVERY x: side gap and-variant gap side, exhaustive over a small set in which a gap is x, blank+x, x+blank
-                   or a blank, a side is a word, a braced word, a backslash, x itself or nothing; then a seeded sample of a much wider
+  blank-templates  for EVERY x: side gap and gap side (thorough: and / AND), exhaustive over a small set in which a gap is x, blank+x,
+                   x+blank or a blank, a side is a word, a braced word, a backslash, x itself or nothing; then a seeded sample of a much wider
                    template space (all C12 tokens as sides, mixed gaps, near misses of 'and', a third name)
   blank-lists      random author lists in which names carry x at their edges / inside / are x, the glue around 'and' has x
                    next to / instead of its blanks, and the list starts / ends with x and blanks
@@ -132,7 +132,7 @@ def gen_templates(rng, tier, seen):
                 for g2 in gaps:
                     if x not in a + g1 + g2:
                         continue
-                    for w in SMALL_W:
+                    for w in (SMALL_W[:1] if tier == "quick" else SMALL_W):
                         for b in sides:
                             s = a + g1 + w + g2 + b
                             if s not in seen:
